@@ -5,6 +5,18 @@ CLAIMED = {
  "C01": dict(level="fault_enumeration", tech="fault enumeration by generated structured wire mutations (proptest tape) with a signed-blocks equality oracle and an independent verifier (RefCrypto)",
    text="For generated tokens (all algorithm mixes, first/third-party blocks, sealed or not) and a donor token (independent, same root, or sibling attenuation), every mutation kind of the catalogue (50 kinds: payload, next key, signature, version, external signature, container, proof, byte level) is applied at every block index and the variant is presented on all three entry points, plus four foreign root keys. An accepted variant must carry exactly the signed blocks of a legitimately issued token of the case, and RefCrypto must accept what the library accepted.",
    note="signature primitives trusted; mutation catalogue + random parameters, not all byte strings; v0 blocks are not required to bind the previous signature", ref="4 C01"),
+ "C03": dict(level="exploration", tech="metamorphic property-based testing (token vs token+adversarial block under the same generated authorizer)",
+   text="For generated (token, adversarial appended block, authorizer) triples where no scope names the new block's key, authorize(T+B) is compared with authorize(T): no new acceptance, failed checks persist, earlier checks and the matched policy are unchanged, the facts of all origins not containing B and default-scope queries are identical (read structurally from snapshots).",
+   note="both runs are the library's (no model needed); typed token/authorizer programs, the appended block may be untyped; an error of the extended token counts as refused", ref="4 C03"),
+ "C04": dict(level="exploration", tech="differential property-based testing against a reference implementation of the scoped-Datalog decision procedure (RefAuthz/RefDatalog) + exhaustive small-scope enumeration of scope configurations",
+   text="Generated tokens and authorizers are decided by the library and by RefAuthz (naive scoped least fixpoint, trust computation, per-kind check rules, ordered policies, error assembly); outcome, failed-check list, matched policy and query/query_all results must be equal. All scope configurations over a small shape (blocks in {first-party, third-party K1, K2}; probe check of each kind in every owner x 16 block-level x 16 rule-level scope subsets x every target; probe rule x 16 x 16) are enumerated completely.",
+   note="reference model written from the specification / property text; error-free programs only; `previous` in the authorizer scope ignored as documented", ref="4 C04"),
+ "C05": dict(level="exploration", tech="differential property-based testing of datalog::World against a naive reference fixpoint (RefDatalog), with insertion-order permutations",
+   text="The engine is driven directly with arbitrary origin sets and trusted-origin sets; the resulting set of (origin, fact) pairs must equal the reference's (missing and extra reported separately) under three insertion orders, and query_rule/query_match/query_match_all must agree with the model; includes same-name/other-arity facts and unbound head variables.",
+   note="typed expressions only; RefDatalog is deliberately naive (nested loops)", ref="4 C05"),
+ "C06": dict(level="exploration", tech="exhaustive operator-table enumeration + property-based testing of op sequences against a reference evaluator (RefEval), laziness observed through counting extern functions",
+   text="Every unary/binary/closure operator over a representative value set (127 k cells) and generated well-formed and malformed op sequences are evaluated by the library and by RefEval: same value or both errors, no panic, law-governed error classes equal, extern call counts equal; a quarter of the sequences also go through builder -> token -> authorize.",
+   note="cells the specification leaves open are pinned to the tree at design time (listed in evidence assumptions); order-dependent all/any over sets with failing elements skipped", ref="4 C06"),
  "C08": dict(level="fault_enumeration", tech="property-based testing of seal (metamorphic sealed-vs-unsealed oracle) + fault enumeration of post-seal operations and wire mutations",
    text="Every generated token is sealed; the sealed token must verify on all entry points with unchanged blocks, accessors and revocation ids, authorize exactly like the unsealed twin under generated authorizers, refuse all 12 extending operations on three paths (in memory, reloaded, unverified-then-verified), and no variant of the C01 catalogue (including attacker grafts) may verify with added, removed or altered blocks.",
    note="authorizers are total typed programs; re-encoding of the seal signature itself is not counted (no block changes)", ref="4 C08"),
